@@ -74,7 +74,7 @@ def draw_options(ch):
             o = {'stop_method': 'sd', 'sd_thresh': ch.choice('sd_thresh', [0.2, 0.05, 0.3]), 'max_iters': 80}
         elif rule == 1:
             o = {'stop_method': 'rilling', 'max_iters': 60,
-                 'rilling_thresh': ch.choice('rilling', [(0.1, 0.7, 0.1), (0.2, 0.8, 0.2), (0.06, 0.6, 0.06)])}
+                 'rilling_thresh': ch.choice('rilling', [(0.1, 0.7, 0.1), (0.2, 0.8, 0.2), (0.06, 0.6, 0.06), (0.15, 0.4, 0.2)])}
         else:
             o = {'stop_method': 'fixed', 'max_iters': 3 + ch.pick('max_iters', 4)}
         if ch.flag('env_step', 1, 2):
@@ -343,6 +343,8 @@ def scenario(w):
 
     # ---- inside the stages: the routines a stage calls are the ones its (supplied) options select ----------
     nviol += _check_effect(w, trace, supplied, vname)
+    if not nviol and 'imf_opts' in supplied:
+        nviol += _check_extraction(w, trace, vname)
 
     if in_worker:
         w.probe('stage_entries_in_workers', in_worker)
@@ -457,6 +459,94 @@ def _check_effect(w, trace, supplied, vname):
                                  % (vname, b.get('parabolic_extrema'), k['bound'].get('parabolic_extrema')))
                         break
     return n
+
+
+def _reference_get_next_imf(b):
+    """The documented single-IMF extraction, assembled explicitly from the envelope stage and the three stop rules,
+    driven by the arguments a recorded get_next_imf call was entered with."""
+    import seams
+    interp_envelope = seams.stage_original('interp_envelope')
+    X = np.asarray(b['X'], dtype=float)
+    if X.ndim == 1:
+        X = X[:, None]
+    env = b.get('envelope_opts') or {}
+    ext = b.get('extrema_opts')
+    proto = X.copy()
+    flag = True
+    niters = 0
+    while True:
+        if b['stop_method'] != 'fixed' and niters > b['max_iters']:
+            return None
+        niters += 1
+        if niters > 5000:
+            return None
+        upper = interp_envelope(proto, mode='upper', **env, extrema_opts=ext)
+        lower = interp_envelope(proto, mode='lower', **env, extrema_opts=ext)
+        if upper is None or lower is None:
+            flag = False
+            break
+        avg = np.mean([upper, lower], axis=0)[:, None]
+        x1 = proto - avg
+        if b['stop_method'] == 'sd':
+            stop = np.sum((proto - x1) ** 2) / np.sum(proto ** 2) < b['sd_thresh']
+        elif b['stop_method'] == 'rilling':
+            sd1, sd2, tol = b['rilling_thresh'][0], b['rilling_thresh'][1], b['rilling_thresh'][2]
+            amp = np.abs(upper - lower) / 2
+            ev = np.abs((upper + lower) / 2) / amp
+            stop = not (np.mean(ev > sd1) > tol or np.any(ev > sd2))
+        elif b['stop_method'] == 'fixed':
+            stop = niters == b['max_iters']
+        else:
+            return None
+        if stop:
+            proto = x1.copy()
+            break
+        proto = proto - (b['env_step_size'] * avg)
+    if b.get('energy_thresh') is not None:
+        ssq = np.sum(X ** 2)
+        e1 = 20 * np.log10(ssq) if ssq > 0 else None
+        rs = np.sum((X - proto) ** 2)
+        e2 = 20 * np.log10(rs) if rs > 0 else None
+        if e1 is not None and e2 is not None and e1 - e2 > b['energy_thresh']:
+            flag = False
+        elif e1 is None or e2 is None:
+            flag = None          # degenerate energies: not judged
+    return proto, flag
+
+
+def _check_extraction(w, trace, vname):
+    """Output equality with a pipeline assembled explicitly from the stage functions with the same options, for a
+    few of the recorded single-IMF extractions (first, last, and the first two inside worker processes)."""
+    recs = [r for r in trace if r['stage'] == 'get_next_imf' and r['bound'] is not None and 'out' in r and r.get('x') is not None]
+    if not recs:
+        return 0
+    pick = [recs[0], recs[-1]] + [r for r in recs if r['task'] is not None][:2]
+    seen = set()
+    for r in pick:
+        if r['id'] in seen:
+            continue
+        seen.add(r['id'])
+        b = dict(r['bound'])
+        b['X'] = r['x']          # the signal as it was at entry
+        try:
+            with C.quiet_trace(w):
+                ref = _reference_get_next_imf(b)
+        except Exception:
+            continue             # the reference itself cannot be evaluated for these arguments: not judged
+        if ref is None:
+            continue
+        w.probe('extractions_checked_against_reference')
+        out, flag = r['out']
+        if out.shape != ref[0].shape or not C.rel_close(out, ref[0], 1e-9) or (ref[1] is not None and bool(flag) != bool(ref[1])):
+            where = 'worker process pid %d' % r['pid'] if r['task'] is not None else 'the calling process'
+            opts = {k: v for k, v in _norm(b).items() if k not in ('X', 'envelope_opts', 'extrema_opts')}
+            w.violation('extraction-differs', '%s|%s' % (vname.split(':')[0], b.get('stop_method')),
+                        '%s: a single-IMF extraction entered (in %s) with %r does not equal the documented extraction '
+                        'assembled from the envelope stage and the %r stop rule with those options (max rel err %s, flag %r vs %r)'
+                        % (vname, where, opts, b.get('stop_method'),
+                           C.max_rel_err(out, ref[0]) if out.shape == ref[0].shape else 'shape', flag, ref[1]))
+            return 1
+    return 0
 
 
 def _copy(v):
